@@ -1118,3 +1118,26 @@ Proof.
   - split; [apply init_Inv; exact H2|split; [reflexivity|split; [reflexivity|constructor]]].
   - rewrite !rest_init by reflexivity. reflexivity.
 Qed.
+
+(* ---------------- choose_filters ---------------- *)
+Lemma choose_loop_bound fuel : forall depth bids init_ok probe_ok st d,
+  choose_loop fuel depth bids init_ok probe_ok = (st, d) ->
+  (depth <= d <= depth + fuel)%nat /\ (st = ARCHIVE_OK -> d < depth + fuel)%nat.
+Proof.
+  induction fuel as [|k IH]; intros depth bids init_ok probe_ok st d H; cbn [choose_loop] in H.
+  - inversion H; subst. split; [lia|]. intros E; discriminate.
+  - destruct (best_bidder (bids depth) 0%Z false).
+    + destruct (init_ok depth).
+      * apply IH in H. destruct H as [H1 H2]. split; [lia|]. intros E; specialize (H2 E); lia.
+      * inversion H; subst. split; [lia|]. intros E; discriminate.
+    + destruct probe_ok; inversion H; subst; (split; [lia|]); intros E; try discriminate; lia.
+Qed.
+
+(* whatever the bidders answer: never more than MAX_NUMBER_FILTERS filters are pushed, success means
+   strictly fewer, and the loop terminates (structural on the regenerated constant) *)
+Lemma choose_filters_bounded bids init_ok probe_ok st d :
+  choose_filters bids init_ok probe_ok = (st, d) ->
+  (d <= N.to_nat MAX_NUMBER_FILTERS)%nat /\ (st = ARCHIVE_OK -> d < N.to_nat MAX_NUMBER_FILTERS)%nat.
+Proof.
+  intros H. apply choose_loop_bound in H. destruct H as [[_ H1] H2]. split; [lia|]. intros E; specialize (H2 E); lia.
+Qed.
